@@ -511,3 +511,35 @@ Example uisra_nonvacuous_stale :
   uheld (vsc (snd c 0%nat)) = [0] /\ uheld (vsc (snd c 1%nat)) = [1] /\ vrace_used (fst c) = false /\
   updates (vg (fst c)) = 2.
 Proof. vm_compute. repeat split. Qed.
+
+(* ---------------- what the OutOfIndices verdict refers to under stale reads ---------------- *)
+Lemma dispatch_at_ooi g l p ov u0 e0 u' s' es :
+  acq_dispatch_at g l p ov u0 e0 = (u', s', es) -> In (ERet RC_OUT_OF_INDICES) es -> (forall c, e0 <> ERet c) -> ucap g <= hd_head ov.
+Proof.
+  unfold acq_dispatch_at. intros H Hin He.
+  destruct (N.leb_spec (ucap g) (hd_head ov)) as [Hle|Hlt]; [exact Hle|].
+  destruct (N.eqb (hd_borrowed ov) LOCK_ACQUIRE); inversion H; subst; cbn [In] in Hin.
+  - destruct Hin as [Hin|[Hin|[]]]; [exfalso; eapply He; eauto|]. injection Hin as Hin. unfold RC_IS_LOCKED, RC_OUT_OF_INDICES, rc in Hin. lia.
+  - destruct Hin as [Hin|[]]. exfalso; eapply He; eauto.
+Qed.
+
+(* under stale reads the verdict OutOfIndices refers to the head word at the position the thread
+   observed last, which is not older than its previous observation *)
+Lemma vret_out_of_indices_source Q t g l g' l' es :
+  vstep Q t g l = Some (g', l', es) -> In (ERet RC_OUT_OF_INDICES) es ->
+  ucap (vg g) <= hd_head (nthN (vhist g) (vspos l') 0).
+Proof.
+  unfold vstep, lift, next_choice. intros H Hin.
+  repeat match type of H with
+  | context [ustep ?a ?b ?c] => let E := fresh "E" in destruct (ustep a b c) as [[[? ?] ?]|] eqn:E
+  | context [acq_dispatch_at ?a ?b ?c ?d ?f ?h] => let E := fresh "E" in destruct (acq_dispatch_at a b c d f h) as [[? ?] ?] eqn:E
+  | context [match ?x with _ => _ end] => let E := fresh "E" in destruct x eqn:E
+  | context [let '(_, _) := ?x in _] => destruct x
+  end; inversion H; subst; clear H; cbn [vspos set_v] in *.
+  all: try (eapply dispatch_at_ooi; [eassumption|assumption|intros c Hc; discriminate]).
+  all: try (cbn [In] in Hin; repeat match goal with Hin : _ \/ _ |- _ => destruct Hin as [Hin|Hin] | Hin : False |- _ => destruct Hin end; try discriminate;
+            injection Hin as Hin; unfold rc_is_locked, RC_OUT_OF_INDICES, rc_borrowed, rc, bool_code in Hin;
+            repeat match type of Hin with context [match ?b with _ => _ end] => destruct b end; lia).
+  all: try (match goal with E : ustep _ _ _ = Some _ |- _ => destruct (ret_out_of_indices_source _ _ _ _ _ _ E Hin) as (_ & [Hp|(? & ? & ? & Hp)]); congruence end).
+  unfold ustep in E. rewrite E0, E1 in E. inversion E; subst. cbn [In] in Hin. destruct Hin as [Hin|[]]. discriminate.
+Qed.
